@@ -430,12 +430,14 @@ func ReadKeysAndCert(data []byte) (*KeysAndCert, []byte, error) {
 
 	pubKeySize := keyCert.CryptoSize()
 	sigKeySize := keyCert.SigningPublicKeySize()
-	padding := extractPaddingFromData(data, pubKeySize, sigKeySize)
 
+	// The signing key must be validated before the padding is extracted:
+	// extractPaddingFromData assumes the signing key fits its 128-byte field.
 	sigKey, err := constructSigningKeyFromCert(keyCert, data, sigKeySize)
 	if err != nil {
 		return nil, remainder, err
 	}
+	padding := extractPaddingFromData(data, pubKeySize, sigKeySize)
 
 	keysAndCert := &KeysAndCert{
 		KeyCertificate:  keyCert,
